@@ -565,8 +565,13 @@ impl BlockAssembler {
         snapshot: &Snapshot,
         current_epoch: &EpochExt,
     ) -> Vec<UncleBlockView> {
-        let mut guard = self.candidate_uncles.lock().await;
-        guard.prepare_uncles(snapshot, current_epoch)
+        let uncles = {
+            let mut guard = self.candidate_uncles.lock().await;
+            guard.prepare_uncles(snapshot, current_epoch)
+        };
+        #[cfg(ckb_verif)]
+        ckb_util::verif::point("assembler::after_prepare_uncles");
+        uncles
     }
 
     pub(crate) fn basic_block_size<'a>(
